@@ -65,7 +65,7 @@ static const convn_t convn_table[] = {
 };
 #define NCONVN 9
 #define NMAX 6
-#define NZ0N 4
+#define NZ0N 8
 #define NMATN 6
 
 static int n_entry(int tier) { return tier ? 7 : 3; }
@@ -353,7 +353,15 @@ static void gen_z0n(int n, int k, double complex *z0)
 	case 0: z0[i] = 50.0; break;
 	case 1: z0[i] = 25.0 * (i + 1); break;
 	case 2: z0[i] = 50.0 + 10.0 * i - 15.0 * I * (i % 3 - 1); break;
-	default: z0[i] = z0_alpha[(i * 5 + 3) % NZ0A]; break;
+	case 3: z0[i] = z0_alpha[(i * 5 + 3) % NZ0A]; break;
+	/* structured vectors: shortcuts keyed on "all ports alike" must
+	   look at the whole complex value of every port */
+	case 4: z0[i] = 50.0 + 12.0 * I * (i - 1); break;  /* Re equal only */
+	case 5: z0[i] = 50.0 + 20.0 * I; break;		    /* all equal, complex */
+	case 6: z0[i] = (i == 0 || i == n - 1) ? 50.0 : 75.0 + 5.0 * I * i;
+		break;					    /* ends equal */
+	default: z0[i] = (i & 1) ? 50.0 - 10.0 * I : 50.0 + 10.0 * I;
+		break;					    /* conjugate pairs */
 	}
     }
 }
